@@ -567,9 +567,11 @@ def correspondence(ctx):
         size_sets = [tuple(g.choice([2, 3, 4], size=k)) for _ in range(2 if ctx.quick else 6)] + [tuple([2] * k), tuple([4] * k)]
         for sizes in size_sets:
             sizes = [int(s) for s in sizes]
-            for order in itertools.permutations(range(k)):
+            for oi, order in enumerate(itertools.permutations(range(k))):
                 names = [2 * x + 1 for x in order]
                 full = np.prod(sizes) <= 64
+                if not full and ctx.quick and oi % 4 != 3:
+                    continue        # 256x256 integer matrix chains are slow in the model; the oracle covers all 24 orders
                 if full:
                     impl = impl_or_err(lambda: mat_reply(mu.calc_permutation_matrix(list(names), list(sizes))))
                     pend.append(("calcperm", (names, sizes), impl, drv.ask("calcperm", ilist(names), ilist(sizes))))
